@@ -2,6 +2,7 @@ package main
 
 import (
 	"fmt"
+	"github.com/xinchentechnote/fin-proto-go/codec"
 	"os"
 	"strconv"
 	"strings"
@@ -278,6 +279,53 @@ func doReplay(prop, path string) int {
 			}
 		}
 		fmt.Println(first.Line())
+	case "lookup":
+		// lookup <table> n <number> | lookup <table> s <hex>
+		if len(toks) != 4 {
+			fmt.Println("not-replayable: malformed case")
+			return 3
+		}
+		ti, err := strconv.Atoi(toks[1])
+		if err != nil || ti < 0 || ti >= len(schema.Tables) {
+			fmt.Println("not-replayable: malformed case")
+			return 3
+		}
+		tb := schema.Tables[ti]
+		fn := lookupFns[tb.Pkg+"."+tb.Lookup]
+		if fn == nil {
+			fmt.Println("not-replayable: the look-up function " + tb.Pkg + "." + tb.Lookup + " no longer exists")
+			return 3
+		}
+		var key any
+		if toks[2] == "n" {
+			n, err := strconv.ParseUint(toks[3], 10, 64)
+			if err != nil {
+				fmt.Println("not-replayable: malformed case")
+				return 3
+			}
+			key = n
+		} else {
+			b, err := parseHex(toks[3])
+			if err != nil {
+				fmt.Println("not-replayable: malformed case")
+				return 3
+			}
+			key = string(b)
+		}
+		var m codec.BinaryCodec
+		c, _ := guard(func() error { var err error; m, err = fn(key); return err })
+		if c == "ok" && m != nil {
+			id := -1
+			for i, q := range typeQNames {
+				if fmt.Sprintf("%T", typeCtors[i]()) == fmt.Sprintf("%T", m) {
+					id = i
+					_ = q
+				}
+			}
+			fmt.Printf("ok | %d\n", id)
+		} else {
+			fmt.Println(c)
+		}
 	case "rop", "wop":
 		op, rest, ok := parseOpTokens(toks[1:])
 		if !ok || len(rest) == 0 {
